@@ -9,6 +9,13 @@
    pkg/gi/mutex.go, make-mutex.go          sync.Mutex (not re-entrant)
    pkg/gi/with-mutex-lock.go               `defer Unlock(); Lock(); body` : unlocked on every outcome of the
                                            body, normal or panic
+   pkg/cl/block.go, return-from.go, tagbody.go, go.go, let.go, ignore-errors.go
+                                           return-from / go do not unwind: they RETURN a marker value
+                                           (a slip.ReturnResult / cl.GoTo pointer) which each enclosing form passes up or not:
+                                           let and block (return marker) return at once; with-mutex-lock and
+                                           ignore-errors only pass on the value of their LAST form (with forms left
+                                           they carry on and the marker is dropped: C07); tagbody skips to its tag or
+                                           its end; leaving with-mutex-lock this way runs the deferred Unlock
    pkg/gi/run.go                           `go func() { form.Eval(s) }()` : no recover, an uncaught error
                                            kills the process (status "crashed" below)
    pkg/clos/set-synchronized.go, hasslots.go, scope.go, locker.go, package.go
@@ -38,15 +45,18 @@ Inductive op :=
 | OStore (x : nat) (e : zexpr)       (* (setf <cell x> e) *)
 | OFail                              (* (error "boom") *)
 | OLock (m : nat) (body : list op)   (* (with-mutex-lock m body...) *)
-| OCatch (body : list op).           (* (ignore-errors body...) *)
+| OCatch (body : list op)            (* (ignore-errors body...) *)
+| OBlock (tb : bool) (b : nat) (body : list op)   (* tb = false: (block b body...); tb = true: (tagbody body... b) *)
+| OExit (tb : bool) (b : nat).       (* tb = false: (return-from b 7); tb = true: (go b) *)
 
 Inductive ev := EvPop (c : nat) (v : val) | EvLoad (x : nat) (z : Z).
 
-Inductive fkind := KPlain | KLock (m : nat) | KCatch.
+Inductive fkind := KPlain | KLock (m : nat) | KCatch | KBlock (tb : bool) (b : nat).
 Record frame := mkF { fk : fkind; fops : list op }.
-(* a routine: control stack (top first), unwinding flag (a Go panic travelling up), registers, log.
-   finished = empty stack; crashed = empty stack while unwinding *)
-Record routine := mkR { stk : list frame; unw : bool; got : val; acc : Z; log : list ev }.
+(* a routine: control stack (top first), unwinding flag (a Go panic travelling up), exit marker (the
+   slip.ReturnResult / cl.GoTo VALUE that return-from / go produce, on its way up through the enclosing forms),
+   registers, log.  finished = empty stack; crashed = empty stack while unwinding *)
+Record routine := mkR { stk : list frame; unw : bool; ext : option (bool * nat); got : val; acc : Z; log : list ev }.
 
 Record entry := mkE { e_val : val; e_from : nat }.
 Record rcv := mkRcv { r_item : option entry; r_by : nat }.       (* None: nil from a closed, drained channel *)
@@ -57,7 +67,7 @@ Record state := mkS { rs : list routine; chs : list chanst; mus : list (option n
 
 Record prog := mkP { p_caps : list nat; p_nmutex : nat; p_mem : list Z; p_code : list (list op) }.
 
-Definition init_routine (ops : list op) : routine := mkR [mkF KPlain ops] false None 0%Z [].
+Definition init_routine (ops : list op) : routine := mkR [mkF KPlain ops] false None None 0%Z [].
 Definition init (p : prog) : state :=
   mkS (map init_routine (p_code p)) (map (fun c => mkC c [] false [] [] []) (p_caps p))
       (repeat None (p_nmutex p)) (p_mem p) (repeat 0%Z (length (p_mem p))) false.
@@ -78,10 +88,11 @@ Definition veval (r : routine) (e : vexpr) : val :=
 Definition zeval (r : routine) (e : zexpr) : Z :=
   match e with ZLit z => z | ZAccPlus k => (acc r + k)%Z end.
 
-Definition set_stk (r : routine) (st : list frame) : routine := mkR st (unw r) (got r) (acc r) (log r).
-Definition set_unw (r : routine) (b : bool) : routine := mkR (stk r) b (got r) (acc r) (log r).
-Definition recv (r : routine) (c : nat) (v : val) : routine := mkR (stk r) (unw r) v (acc r) (log r ++ [EvPop c v]).
-Definition load (r : routine) (x : nat) (z : Z) : routine := mkR (stk r) (unw r) (got r) z (log r ++ [EvLoad x z]).
+Definition set_stk (r : routine) (st : list frame) : routine := mkR st (unw r) (ext r) (got r) (acc r) (log r).
+Definition set_unw (r : routine) (b : bool) : routine := mkR (stk r) b (ext r) (got r) (acc r) (log r).
+Definition set_ext (r : routine) (e : option (bool * nat)) : routine := mkR (stk r) (unw r) e (got r) (acc r) (log r).
+Definition recv (r : routine) (c : nat) (v : val) : routine := mkR (stk r) (unw r) (ext r) v (acc r) (log r ++ [EvPop c v]).
+Definition load (r : routine) (x : nat) (z : Z) : routine := mkR (stk r) (unw r) (ext r) (got r) z (log r ++ [EvLoad x z]).
 
 Definition set_r (s : state) (i : nat) (r : routine) : state :=
   mkS (upd (rs s) i r) (chs s) (mus s) (mem s) (bumps s) (unwound s).
@@ -182,6 +193,15 @@ Definition exec (s : state) (i : nat) (r : routine) (r0 : routine) (o : op) (k :
       | _ => None                                                    (* held (also by i itself): blocked *)
       end
   | OCatch body => Some (set_r s i (set_stk r (mkF KCatch body :: stk r)))
+  | OBlock tb b body => Some (set_r s i (set_stk r (mkF (KBlock tb b) body :: stk r)))
+  | OExit tb b =>
+      (* return-from checks Scope.InBlock(name): some enclosing block of that name; go checks Scope.TagBody: some
+         enclosing tagbody (whatever its tags); otherwise a control-error *)
+      if existsb (fun f => match fk f with
+                           | KBlock tb' b' => if tb then tb' else negb tb' && Nat.eqb b' b
+                           | _ => false end) (stk r)
+      then Some (set_r s i (set_ext r (Some (tb, b))))
+      else Some (raise s i r)
   end.
 
 Definition step (s : state) (i k : nat) : option state :=
@@ -197,14 +217,41 @@ Definition step (s : state) (i k : nat) : option state :=
             | KCatch => Some (set_r s i (set_unw (set_stk r rest) false))       (* ignore-errors returns *)
             | KLock m => Some (set_rm s i (set_stk r rest) m None)              (* deferred Unlock *)
             | KPlain => Some (set_r s i (set_stk r rest))
+            | KBlock _ _ => Some (set_r s i (set_stk r rest))
             end
           else
+            match ext r with
+            | Some (tb, b) =>
+                (* the marker is the value of the form just evaluated in frame f.  with-mutex-lock, ignore-errors
+                   (and block, for a go marker) only pass on the value of their LAST form: with forms left they
+                   carry on and the marker is dropped; let and block (return marker) return at once; tagbody
+                   skips to the tag, or to its end, and returns nil; a return marker means nothing to it *)
+                let weak := match fops f with
+                            | [] => match fk f with
+                                    | KLock m => Some (set_rm s i (set_stk r rest) m None)      (* deferred Unlock *)
+                                    | _ => Some (set_r s i (set_stk r rest))
+                                    end
+                            | _ :: _ => Some (set_r s i (set_ext r None))
+                            end in
+                match fk f with
+                | KPlain => Some (set_r s i (set_stk r rest))
+                | KLock _ => weak
+                | KCatch => weak
+                | KBlock false b' =>
+                    if tb then weak
+                    else Some (set_r s i (set_ext (set_stk r rest) (if Nat.eqb b' b then None else Some (tb, b))))
+                | KBlock true _ =>
+                    if tb then Some (set_r s i (set_ext (set_stk r rest) None))
+                    else Some (set_r s i (set_ext r None))
+                end
+            | None =>
             match fops f with
             | [] => match fk f with
                     | KLock m => Some (set_rm s i (set_stk r rest) m None)      (* deferred Unlock *)
                     | _ => Some (set_r s i (set_stk r rest))
                     end
             | o :: ops' => exec s i (set_stk r (mkF (fk f) ops' :: rest)) r o k
+            end
             end
       end
   end.
